@@ -71,10 +71,10 @@ def make_device(tdgl, a):
     return dev
 
 
-def current_unit_scale(dev, current_units, a_scale=1.0):
+def current_unit_scale(length_units, current_units, a_scale=1.0):
     """I0 = K0 xi / 4 = Phi0 d / (2 pi mu0 lambda^2) in `current_units` (docs: K0 = 4 xi Bc2 / (mu0 Lambda),
     Bc2 = Phi0 / (2 pi xi^2), Lambda = lambda^2 / d); dimensionless inflow * I0 = current."""
-    L = LEN[dev.length_units]
+    L = LEN[length_units]
     # lambda and d as ASKED FOR when the device was built (harness devices: london_lambda = 2 scale, thickness = 0.1 scale)
     lam = 2.0 * a_scale * L
     d = 0.1 * a_scale * L
@@ -399,7 +399,7 @@ def conservation_trace(dev, a, ok, frames, err):
     bidx = np.asarray(em.boundary_edge_indices)
     blen = np.asarray(em.edge_lengths)[bidx]
     bedges = np.asarray(em.edges)[bidx]
-    I0_doc = current_unit_scale(dev, a.get("current_units", "uA"), a.get("scale", 1.0))      # independent constants: used at the coarse level
+    I0_doc = current_unit_scale(a.get("length_units", "um"), a.get("current_units", "uA"), a.get("scale", 1.0))      # independent constants: used at the coarse level
     # fine level: the device's own K0 and xi (documented properties), so that the last digits of mu0 / Phi0 do not matter
     I0 = float((dev.K0 * dev.coherence_length / 4).to(a.get("current_units", "uA")).magnitude)
     tr["I0_ratio"] = I0 / I0_doc
